@@ -14,7 +14,7 @@
     the results.  [spec] / [independent] is the specification: a separate run on a fresh copy of
     the model with exactly that row's values, listed in input order under the input labels. *)
 From Coq Require Import List ZArith NArith Sorting.Sorted.
-From Scan Require Import ScanGeneric ScanModel ScanNested ScanY0 ExpectedFacts GenScanFacts ScanProofs ScanProofs2 ScanProofs3.
+From Scan Require Import ScanGeneric ScanModel ScanNested ScanY0 ExpectedFacts GenScanFacts ScanWarm ScanProofs ScanProofs2 ScanProofs3 ScanProofs4.
 Import ListNotations.
 
 (** [C09_expected_tc / _ptc / _dups] (ExpectedFacts.v) say which form of the two proposed repairs the
@@ -586,6 +586,119 @@ Theorem C09_cache_checked_total :
     (~ NoDup (map fst inputs) -> run_cached_checked K T R keqb true f st inputs = None).
 Proof. exact cache_checked_total. Qed.
 Print Assumptions C09_cache_checked_total.
+
+(** ---- third pass: the model OBJECT handed to a scan, with its cache (ScanWarm.v) ----
+    Two more facts read from the source: what [Simulation._compute_args] leaves behind in the object it reads
+    through (since 4167248 it puts the parameter values back), and what the two update calls of a scan task do
+    to the object's [_cache] ([update_variables] / [update_parameters] loop over the items and call the
+    single-item mutators, which carry [@_invalidate_cache]; read structurally from model.py).  The pins demand a
+    RECOGNISED form (the theorems below hold for each of them), so a sibling's repair that moves between the
+    recognised forms does not alarm; anything unrecognised does. *)
+Theorem C09_view_policy_pinned : gen_view_policy <> ViewUnknown.
+Proof. vm_compute. discriminate. Qed.
+Print Assumptions C09_view_policy_pinned.
+
+Theorem C09_row_update_pinned : gen_row_update <> RowUnknown.
+Proof. vm_compute. discriminate. Qed.
+Print Assumptions C09_row_update_pinned.
+
+(** A model object [(m0, oc)] is content plus [_cache]; [cache_ok] says the cache (if any) is the one
+    [_create_cache] computes from the content -- a fresh model ([oc = None]) as well as one that was
+    simulated / inspected since its last modification.  At the tree's facts, for the steady-state and
+    time-course workers, ANY such object, y0 (or none), table, mode and completion order: every row is the
+    separate run on the CONTENT with y0 and then the row's values -- whatever cache the object arrived with
+    (deep copy and pickling copy it along; any item of the row drops it; a row that names nothing in the model
+    keeps content and cache). *)
+Theorem C09_warm_model_scan_equals_independent :
+  forall (w : wkind) (md : mode) (m0 : mdl) (oc : option cache) (oy0 : option y0) (rows : list (label * row)),
+    cache_ok (m0, oc) -> mode_ok md (length rows) ->
+    scan_list_cc gen_row_update gen_view_policy gen_scan_facts w md (m0, oc) oy0 rows
+    = map (fun lr => (fst lr, independent_c (sf_tc_axis gen_scan_facts) w
+                                (match oy0 with Some y => update_variables m0 y | None => m0 end) (snd lr))) rows.
+Proof. exact (warm_scan_pinned gen_scan_facts gen_row_update gen_view_policy (f_equal sf_copies C09_facts_pinned) C09_row_update_pinned). Qed.
+Print Assumptions C09_warm_model_scan_equals_independent.
+
+(** ... and the dict-keyed containers behind the index test, for any facts with the deep copy and the test *)
+Theorem C09_warm_model_dict_scan_total :
+  forall (f : scan_facts) (vp : view_policy), sf_copies f = true -> sf_dups f = DupRefuse ->
+  forall (w : wkind) (md : mode) (m0 : mdl) (oc : option cache) (oy0 : option y0) (rows : list (label * row)),
+    cache_ok (m0, oc) -> mode_ok md (length rows) ->
+    (NoDup (map fst rows) ->
+       scan_dict_checked_cc gen_row_update vp f w md (m0, oc) oy0 rows
+       = Some (map (fun lr => (fst lr, independent_c (sf_tc_axis f) w
+                                         (match oy0 with Some y => update_variables m0 y | None => m0 end) (snd lr))) rows)) /\
+    (~ NoDup (map fst rows) -> scan_dict_checked_cc gen_row_update vp f w md (m0, oc) oy0 rows = None).
+Proof. exact (fun f vp Hc Hd => warm_dict_scan_pinned f gen_row_update vp Hc Hd C09_row_update_pinned). Qed.
+Print Assumptions C09_warm_model_dict_scan_total.
+
+(** the same for BOTH recognised forms of the mutators (per item / always) and every view policy, and: what a
+    view leaves behind in the object never shows in a scan whose tasks work on their own copies (so the
+    correspondence is valid before and after 4167248) *)
+Theorem C09_warm_scan_any_recognised_source :
+  forall (p : row_update) (vp vp' : view_policy) (f : scan_facts) (w : wkind) (md : mode) (mc0 : cmdl) (oy0 : option y0)
+         (rows : list (label * row)),
+    p <> RowUnknown -> sf_copies f = true -> cache_ok mc0 -> mode_ok md (length rows) ->
+    scan_list_cc p vp f w md mc0 oy0 rows
+    = map (fun lr => (fst lr, independent_c (sf_tc_axis f) w
+                                (match oy0 with Some y => update_variables (fst mc0) y | None => fst mc0 end) (snd lr))) rows
+    /\ scan_list_cc p vp f w md mc0 oy0 rows = scan_list_cc p vp' f w md mc0 oy0 rows.
+Proof.
+  exact (fun p vp vp' f w md mc0 oy0 rows Hp Hc Hok Hmd =>
+           conj (warm_list_scan p vp f w md mc0 oy0 rows Hp Hc Hok Hmd) (view_policy_irrelevant p vp vp' f w md mc0 oy0 rows Hp Hc Hok Hmd)).
+Qed.
+Print Assumptions C09_warm_scan_any_recognised_source.
+
+(** seeded change C09-8 ([apply_row_keep]: a row without parameter column is written into the initial values and
+    into [cache.initial_conditions] of the copied cache, which is kept).  It is right for an object WITHOUT cache
+    and for tables whose every row has a parameter column ...
+    FULL STATEMENT (false, see C09_kept_cache_refuted): the same without the last hypothesis. *)
+Theorem C09_kept_cache_partial :
+  forall (p : row_update) (vp : view_policy) (f : scan_facts) (w : wkind) (md : mode) (mc0 : cmdl) (rows : list (label * row)),
+    p <> RowUnknown -> sf_copies f = true -> cache_ok mc0 -> mode_ok md (length rows) ->
+    snd mc0 = None \/ Forall (fun lr => filter (fun kv => has_key (fst kv) (m_pars (fst mc0))) (snd lr) <> []) rows ->
+    scan_list_keep p vp f w md mc0 rows
+    = map (fun lr => (fst lr, independent_c (sf_tc_axis f) w (fst mc0) (snd lr))) rows.
+Proof. exact kept_cache_cold_or_parameter_rows. Qed.
+Print Assumptions C09_kept_cache_partial.
+
+(** ... and wrong for a warm object, a table over initial values and a model with something computed from them.
+    x' = -(p * k), p assigned from x(0): table x(0) = 1, 2, 3, one step: separate runs end at 0, 0, 0 (tree: warm or
+    not); with the row written into the kept cache p stays 1: 0, 1, 2, sequentially and with 2 workers finishing
+    2, 0, 1; a cold object is handled correctly.  x' = p - x, p assigned from x(0), steady states: 1, 2, 3 vs 7, 7, 7. *)
+Theorem C09_kept_cache_refuted :
+  forall (f : scan_facts) (vp : view_policy), sf_copies f = true ->
+  let p := RowInvalidatesPerItem in
+  let w := WTimeCourse [0; 1]%Z in
+  let par := Par 2 [(2, 0); (0, 1); (1, 0)]%nat in
+  (map last_var (scan_list_keep p vp f w Seq (warm stale_model) stale_rows) = [Some (Num 0); Some (Num 1); Some (Num 2)] /\
+   map last_var (scan_list_keep p vp f w par (warm stale_model) stale_rows) = [Some (Num 0); Some (Num 1); Some (Num 2)] /\
+   map last_var (scan_list_cc p vp f w Seq (warm stale_model) None stale_rows) = [Some (Num 0); Some (Num 0); Some (Num 0)] /\
+   map last_var (map (fun lr => (fst lr, independent_c (sf_tc_axis f) w stale_model (snd lr))) stale_rows)
+     = [Some (Num 0); Some (Num 0); Some (Num 0)] /\
+   map last_var (scan_list_keep p vp f w Seq (cold stale_model) stale_rows) = [Some (Num 0); Some (Num 0); Some (Num 0)]) /\
+  (map last_var (scan_list_keep p vp f WSteady Seq (warm follow_model) stale_rows) = [Some (Num 7); Some (Num 7); Some (Num 7)] /\
+   map last_var (scan_list_cc p vp f WSteady Seq (warm follow_model) None stale_rows) = [Some (Num 1); Some (Num 2); Some (Num 3)] /\
+   map last_var (map (fun lr => (fst lr, independent_c (sf_tc_axis f) WSteady follow_model (snd lr))) stale_rows)
+     = [Some (Num 1); Some (Num 2); Some (Num 3)]).
+Proof. exact kept_cache_stale. Qed.
+Print Assumptions C09_kept_cache_refuted.
+
+(** the defect repaired by b189941 (no deep copy: one object shared by all rows of a sequential scan), on the object
+    model and under EITHER view policy: that a view puts the parameter values back (4167248) does not make the
+    deep copy dispensable -- the stale quantity is computed from the last row's initial values: fluxes 3, 3, 3 *)
+Theorem C09_sequential_shared_object_any_view_refuted :
+  forall (f : scan_facts) (vp : view_policy), sf_copies f = false ->
+    map first_flux (scan_list_cc RowInvalidatesPerItem vp f (WTimeCourse [0; 1]%Z) Seq (cold stale_model) None stale_rows)
+    = [Some (Num 3); Some (Num 3); Some (Num 3)].
+Proof. exact shared_object_stale. Qed.
+Print Assumptions C09_sequential_shared_object_any_view_refuted.
+
+(** the cache hypothesis is not vacuous: a warm object carries a cache, and it belongs to its content *)
+Example C09_warm_nonvacuous :
+  (exists c, warm stale_model = (stale_model, Some c)) /\ cache_ok (warm stale_model) /\ RowInvalidatesPerItem <> RowUnknown.
+Proof. exact warm_nonvacuous. Qed.
+Print Assumptions C09_warm_nonvacuous.
+
 
 (** non-vacuity: three rows, two workers, tasks completing in the order 2, 0, 1; the model whose
     parameter is assigned from the scanned initial value *)
